@@ -32,6 +32,9 @@ func F2R(a int) (int, string) { Counter++; return -6000 - a, "orig" }
 func (t *T) M(a int) int { Counter++; return -7000 - a - t.K }
 
 //go:noinline
+func (t *T) M2(a int) int { Counter++; return -7500 - a - t.K }
+
+//go:noinline
 func (t T) V(a int) int { Counter++; return -8000 - a - t.K }
 
 //go:noinline
